@@ -20,7 +20,8 @@ QuickSets ==
    s5 |-> <<"tag1", "tag2", "urlT", "getB", "t1">>,
    sA |-> <<"pathX", "pathXY", "t1", "getB", "srv">>,
    sB |-> <<"t7", "useR1", "useR2", "t1", "srv">>,
-   sC |-> <<"tagCats", "catsT", "catsU", "dogsT", "srv">>]
+   sC |-> <<"tagCats", "catsT", "catsU", "dogsT", "srv">>,
+   sD |-> <<"urlS1", "urlS2", "t1", "macT", "useMT">>]
 DeepSets ==
   [s6 |-> <<"t1", "reqT", "tAny", "srv2", "srv", "infoV">>,
    s7 |-> <<"mac", "mac2", "t1", "bodyT", "tag1", "pathM">>,
